@@ -138,6 +138,7 @@ func (d *dagStoreImpl) Create(name string, spec []byte) (string, error) {
 	if exists(loc) {
 		return "", fmt.Errorf("%w: %s", errDAGFileAlreadyExists, loc)
 	}
+	verifPoint("create.checked", loc)
 	// nolint: gosec
 	return name, os.WriteFile(loc, spec, 0644)
 }
@@ -354,6 +355,7 @@ func (d *dagStoreImpl) Rename(oldID, newID string) error {
 	if newLoc != oldLoc && exists(newLoc) {
 		return fmt.Errorf("%w: %s", errDAGFileAlreadyExists, newLoc)
 	}
+	verifPoint("rename.checked", newLoc)
 	return os.Rename(oldLoc, newLoc)
 }
 
